@@ -95,7 +95,7 @@ func busWrite(s *emulator.System, a uint32, v byte) (served bool) {
 
 // C11: exhaustive toggle/write sweep of the emulated System's bus against the LoROM mapper.
 func C11(r *vf.Run) {
-	r.Rule = "all 2^24 bus addresses: where the emulator serves the address and lorom.BusAddressToPak maps it, a read must follow the designated ROM/SRAM/WRAM cell through two different values (toggle test) and a write must change exactly that cell (full shadow diff of the three arrays after every bank); thorough repeats with three fills and in descending order; plus random-order sequences mixing EaRead, EaWrite and EaRead24_wrap with block locality; plus long-lived Systems whose host re-attaches its own handlers over register-area windows 67,000+ times with the map re-verified after every Attach; a cell is (memory class, bank group, read|write)"
+	r.Rule = "all 2^24 bus addresses: where the emulator serves the address and lorom.BusAddressToPak maps it, a read must follow the designated ROM/SRAM/WRAM cell through two different values (toggle test) and a write must change exactly that cell (full shadow diff of the three arrays after every bank); thorough repeats with three fills and in descending order; plus random-order sequences mixing EaRead, EaWrite, EaRead24_wrap and block reads (EaDump windows across page, half-bank and bank boundaries) with block locality; plus long-lived Systems whose host re-attaches its own handlers over register-area windows 67,000+ times with the map re-verified after every Attach; a cell is (memory class, bank group, read|write)"
 	r.Exhaustive = true
 	r.Assume = []string{"an address is 'served' when System.Bus.EaRead does not panic", "arrays are filled before CreateEmulator; the cartridge-header bytes ($xxFFD0-$FFDF) take the values 0..15 across workers", "SRAM cells beyond len(System.SRAM) do not exist; such addresses are judged only if the emulator serves them"}
 
@@ -250,11 +250,50 @@ func C11(r *vf.Run) {
 						a += 16
 					}
 				}
-				op := g.Intn(4)
+				op := g.Intn(5)
 				if len(hist) > 6 {
 					hist = hist[1:]
 				}
 				switch op {
+				case 4:
+					// a block read through the bus: a window that runs across page, half-bank and bank
+					// boundaries (ROM half into the next bank's low WRAM, WRAM into the register area, ...)
+					start := a
+					switch g.Intn(4) {
+					case 0:
+						start = a&0xFF0000 | 0xFF00 + uint32(g.Intn(0x100)) // runs into the next bank
+					case 1:
+						start = a&0xFF0000 | 0x8000 - uint32(1+g.Intn(0x40)) // runs into the ROM half
+					case 2:
+						start = a&0xFF0000 | 0x1F00 + uint32(g.Intn(0x100)) // low WRAM into the register area
+					}
+					length := uint32(1 + g.Intn(0x280))
+					if start+length > 0x1000000 {
+						length = 0x1000000 - start
+					}
+					out := make([]byte, length)
+					var n int
+					if pan := vf.Try(func() { n = h.s.Bus.EaDump(start, start+length-1, out) }); pan != nil {
+						cells["inter:dump-panicked"]++ // windows over unserved addresses are C13's concern
+						continue
+					}
+					_ = n
+					hist = append(hist, fmt.Sprintf("EaDump($%06x,+%d)", start, length))
+					for i := uint32(0); i < length; i++ {
+						cls, live, _, idx, ok := cellOf(start + i)
+						if !ok {
+							continue
+						}
+						if out[i] != live[idx] {
+							r.Fail("interleaved-dump-"+cls, fmt.Sprintf("after %v: EaDump($%06x,+%d) position %d (address $%06x) = %02x but %s[$%x]=%02x", hist, start, length, i, start+i, out[i], cls, idx, live[idx]), nil)
+							return
+						}
+					}
+					cells["inter:dump"]++
+					last = start + length - 1
+					if (start+length-1)>>16 != start>>16 {
+						cells["inter:dump-crosses-bank"]++
+					}
 				case 0, 1:
 					cls, live, _, idx, ok := cellOf(a)
 					if !ok {
